@@ -139,6 +139,7 @@ TrReadHintEtag ==
   /\ IsEv("ReadHintEtag")
   /\ IF ~ev.ok THEN hint.cls = "missing" /\ Stutter
      ELSE IF Name(ev.name) = NoName THEN hint.cls = "garbage" /\ Stutter
+     ELSE IF Name(ev.name) \notin DOMAIN metas THEN hint = [cls |-> "name", name |-> Name(ev.name)] /\ Stutter   \* dangling: a Resolve follows
      ELSE ReadVersion(A, Name(ev.name))
 
 TrWriteMarker ==
@@ -178,6 +179,8 @@ TrExists ==
   /\ (ev.f \in present) = ev.res
   /\ IF pc[A] = "c_checkdata" /\ loc[A].chk < Len(AppendFiles(A)) /\ ev.f = AppendFiles(A)[loc[A].chk + 1]
      THEN CheckData(A)
+     ELSE IF pc[A] = "tx_check" /\ IsPre(A) /\ Len(loc[A].files) < Len(AppendFiles(A)) /\ ev.f = NextAppend(A)
+     THEN QueuePrebuilt(A, ev.f)
      ELSE IF ev.res THEN Stutter
      ELSE CASE pc[A] = "c_readlist" -> ReadBaseList(A)
             [] pc[A] = "c_readman"  -> ReadManifest(A)
